@@ -9,6 +9,7 @@ VERIF_DIR="$(pwd)"
 mkdir -p bin evidence replays
 W=$(mktemp -d /dev/shm/verif.setup.XXXXXX 2>/dev/null || mktemp -d)
 trap 'rm -rf "$W"' EXIT
+export CGO_CFLAGS="${CGO_CFLAGS:-} -DVERIF_SRC_HASH=$(cat /repo/qbe/*.c /repo/qbe/*.h /repo/qbe/*/*.c /repo/qbe/*/*.h 2>/dev/null | sha1sum | cut -c1-16)"
 python3 tools/mkoverlay.py "$VERIF_DIR/src" /repo "$W/overlay.json" || exit 1
 (cd /repo && go build -o "$W/ferret" . && go build -tags verif -overlay "$W/overlay.json" -o "$W/vcheck" ./verifh/check) || exit 1
 if [ -d tools/rewriter ]; then
